@@ -3,6 +3,7 @@ package verifdrv
 import (
 	"encoding/json"
 	"fmt"
+	"math/big"
 	"math/rand"
 	"strings"
 )
@@ -63,7 +64,10 @@ func balanceReplay(e *env) error {
 			}
 			return strings.Join(parts, "/")
 		}
-		w := &world{uq: []float64{1, 0.5, 0.25}[rng.Intn(3)], ua: 1} // ua = 1: a directly logged element and one that comes through the book share one scale
+		w := &world{uq: []float64{1, 0.5, 0.25, 0.125, 0.375}[rng.Intn(5)], ua: 1}
+		if len(c.Amts) > 1 && c.Amts[1] == 3 {
+			w.uq = 0.125 // the odd-amount configuration: every contribution is an odd multiple of 1/8
+		} // ua = 1: a directly logged element and one that comes through the book share one scale
 		cc := &concretiser{rng: rng}
 		xname := join(c.XName)
 		var book strings.Builder
@@ -79,7 +83,7 @@ func balanceReplay(e *env) error {
 				cur = c.Days[i]
 				fmt.Fprintf(&lg, "2021/05/%02d:\n", cur)
 			}
-			lg.WriteString(cc.entryLine(join(p), fmtNum(float64(c.Amts[i])*w.uq, rng)) + "\n")
+			lg.WriteString(cc.entryLine(join(p), fmtNum(float64(c.Amts[i])*w.uq, rng)) + "\n") // dyadic units: exact literals
 		}
 		x := &cmpCtx{e: e, c: c, w: w, book: book.String(), log: lg.String()}
 		if idx%1500 == 1 {
@@ -109,6 +113,18 @@ func balanceReplay(e *env) error {
 				}
 				return w.milliQ(v)
 			}
+			kind := byte('Q')
+			if single {
+				kind = 'C'
+			}
+			// what the entries add up to (all foods), resp. the specification's grand total (single element)
+			sumModel := c.Total
+			if !single {
+				sumModel = 0
+				for _, a := range c.Amts {
+					sumModel += a
+				}
+			}
 			// outside the prefix-free clause the statement does not fix how a collapsed chain whose nodes carry
 			// entries of their own is labelled or valued: only "no branch is dropped" is compared there
 			if !prefixFree && strings.Contains(tag, "collapse") {
@@ -125,6 +141,26 @@ func balanceReplay(e *env) error {
 					}
 					stack = append(stack[:r.Level], full)
 					shown = append(shown, full)
+				}
+				// conservation holds in every display mode: the top-level rows add up to everything that was logged
+				// (the printed figures are rounded: half a unit of slack per row)
+				var top int64
+				ntop := 0
+				for _, r := range rows {
+					if r.Level == 0 {
+						top += r.Val
+						ntop++
+					}
+				}
+				wantTop := new(big.Rat).Mul(big.NewRat(int64(sumModel), 1), w.unitRat(kind))
+				diff := new(big.Rat).Sub(big.NewRat(top, 1000), wantTop)
+				if diff.Abs(diff).Cmp(big.NewRat(int64(5*ntop+1), 1000)) > 0 {
+					x.bad("balance-not-conserved", "cmd/hranoprovod-cli/internal/balance", fmt.Sprintf("bal %s: the top-level rows %+v add up to %d/1000, the logged quantities to %s (log %q)", tag, rows, top, wantTop.FloatString(3), x.log))
+					return
+				}
+				if single && (tot == nil || !w.near(tot.Val, c.Total, 'C', 2)) {
+					x.bad("balance-single-total", "cmd/hranoprovod-cli/internal/balance", fmt.Sprintf("bal %s grand total %+v, specification predicts %d x unit", tag, tot, c.Total))
+					return
 				}
 				for i, p := range c.Log {
 					if single {
@@ -146,7 +182,7 @@ func balanceReplay(e *env) error {
 			}
 			okr := len(rows) == len(want)
 			for i := 0; okr && i < len(rows); i++ {
-				okr = rows[i].Val == scale(want[i].Val) && rows[i].Level == want[i].Lvl && rows[i].Label == join(want[i].Label)
+				okr = w.near(rows[i].Val, want[i].Val, kind, 2) && rows[i].Level == want[i].Lvl && rows[i].Label == join(want[i].Label)
 			}
 			if !okr {
 				var ws []string
@@ -158,7 +194,7 @@ func balanceReplay(e *env) error {
 				return
 			}
 			if single {
-				if tot == nil || tot.Val != w.milliC(c.Total) || tot.Label != xname {
+				if tot == nil || !w.near(tot.Val, c.Total, 'C', 2) || tot.Label != xname {
 					x.bad("balance-single-total", "cmd/hranoprovod-cli/internal/balance", fmt.Sprintf("bal %s grand total %+v, specification predicts %d/1000 %q", tag, tot, w.milliC(c.Total), xname))
 				}
 			} else if tot != nil {
